@@ -59,7 +59,7 @@ def fmt(v):
     return f"{v[0]}({v[1]!r})"
 
 
-def check(run, P):
+def _check_main(run, P):
     run.rule("C14.table.idem", "unify(a, a) == a wherever it is defined", minimum=9)
     run.rule("C14.table.comm",
              "unify(a, b) defined <=> unify(b, a) defined, with equal results", minimum=36)
@@ -714,3 +714,9 @@ def _sweeps(run, P):
            why="the callers pass generators (get_statements_in_ast): consumed by the "
                "first sweep, later sweeps see nothing and kinds computed from partial "
                "sums are never corrected")
+
+
+def check(run, P):
+    _check_main(run, P)
+    from . import generic
+    generic.lints(run, P, "C14")
